@@ -228,6 +228,37 @@ Theorem C09_same_bytes_history_bytes : forall (H : bytes -> bytes) (ops : list o
 Proof. exact same_bytes_history_bytes. Qed.
 Print Assumptions C09_same_bytes_history_bytes.
 
+(* the serialised transaction [body, witness_set, true, aux/null] with ANY other body fields: slicing it (what the judge
+   does with the implementation's bytes) yields the model's two hashes, the structured witness-set fields 5 and 4 and
+   the auxiliary-data bytes; premises only about the opaque leaves (well-formed items, 32-byte hashes) *)
+Theorem C09_tx_view_sound : forall (other : list (N * bytes)) (t : tx),
+  other_ok other -> len (body_fields other t) < two64 ->
+  hash_ok (tx_script_data_hash t) -> hash_ok (tx_aux_data_hash t) ->
+  Forall (fun kv => item_wf (snd kv) = true) (ws_fields (tx_witness_set t)) ->
+  (match tx_aux t with Some a => item_wf (enc_aux a) = true | None => True end) ->
+  view_tx (tx_bytes other t) =
+  Ok (mk_tx_view (tx_script_data_hash t) (tx_aux_data_hash t)
+                 (assoc_field 5 (ws_fields (tx_witness_set t))) (assoc_field 4 (ws_fields (tx_witness_set t)))
+                 (match tx_aux t with Some a => Some (enc_aux a) | None => None end)).
+Proof. exact view_tx_sound. Qed.
+Print Assumptions C09_tx_view_sound.
+
+(* the judge of the correspondence run accepts the bytes of the model's own transaction on every history with a fresh
+   hash: it is the conjunction of C09_same_bytes_history and C09_aux read off the emitted bytes *)
+Theorem C09_judge_accepts_model : forall (H : bytes -> bytes) (ops : list op) (cm : costmdls) (before : list op)
+    (other : list (N * bytes)) (t : tx),
+  build_tx H (fst (run H builder_new ops)) = Ok t ->
+  last_calc_rev (rev ops) = Some (cm, before) ->
+  is_ok (calc_script_data_hash H (fst (run H builder_new (rev before))) cm) = true ->
+  has_script_items (fst (run H builder_new (rev before))) || is_none (b_script_data_hash (fst (run H builder_new (rev before)))) = true ->
+  other_ok other -> len (body_fields other t) < two64 ->
+  hash_ok (tx_script_data_hash t) -> hash_ok (tx_aux_data_hash t) ->
+  Forall (fun kv => item_wf (snd kv) = true) (ws_fields (tx_witness_set t)) ->
+  (match tx_aux t with Some a => item_wf (enc_aux a) = true | None => True end) ->
+  judge_builder H ops (tx_bytes other t) = Holds.
+Proof. exact judge_builder_accepts_model. Qed.
+Print Assumptions C09_judge_accepts_model.
+
 (* ---- non-vacuity ------------------------------------------------------------------------------------------- *)
 Definition ex_datum_a : pdata := mk_pdata 1 [24; 42].
 Definition ex_datum_b : pdata := mk_pdata 2 [159; 1; 2; 255].
@@ -286,3 +317,11 @@ Example C09_wire_premises_satisfiable :
   wire_canonical w = true /\ is_ok (decode_wire w) = true /\
   wire_canonical (WAlonzo None None None (Some [[1]]) None) = false.
 Proof. repeat split; reflexivity. Qed.
+(* the judge on the bytes of the example transaction (a 32-byte stand-in for the hash, two other body fields) *)
+Definition h32 (bs : bytes) : bytes := firstn 32 (map (fun b => b mod 256) bs ++ repeat 0 32).
+Example C09_judge_example :
+  match build_tx h32 (fst (run h32 builder_new ex_ops)) with
+  | Ok t => judge_builder h32 ex_ops (tx_bytes [(0, [128]); (2, [26; 0; 1; 2; 3])] t) = Holds
+  | _ => False
+  end.
+Proof. vm_compute. reflexivity. Qed.
